@@ -1,5 +1,5 @@
-PROP = {'modules': ['Discv5Model.Props.C17', 'Discv5Model.Props.C17Service', 'Discv5Model.Props.C17Connectivity'],
- 'lemma_modules': ['Discv5Model.Proofs.IpVoteLemmas', 'Discv5Model.Proofs.ConnectivityLemmas'],
+PROP = {'modules': ['Discv5Model.Props.C17', 'Discv5Model.Props.C17Service', 'Discv5Model.Props.C17Connectivity', 'Discv5Model.Props.C17Family'],
+ 'lemma_modules': ['Discv5Model.Proofs.IpVoteLemmas', 'Discv5Model.Proofs.ConnectivityLemmas', 'Discv5Model.Proofs.IpVoteFamily'],
  'engines': [{'name': 'ipvote', 'quick': 1000, 'thorough': 30000},
              {'name': 'service', 'quick': 80, 'thorough': 1500},
              {'name': 'service', 'quick': 24, 'thorough': 300, 'model': False, 'profile': 'C17expiry'}],
@@ -32,7 +32,9 @@ PROP = {'modules': ['Discv5Model.Props.C17', 'Discv5Model.Props.C17Service', 'Di
                "model - a PONG of a family whose votes are not admitted changes nothing; the record changes only in a due timer step (exactly that family's "
                'socket goes, seq + 1) or in a PONG that reaches the vote path while the family is admitted; after a failed connectivity test the family stays '
                'blocked for six hours whatever else happens; the wait for incoming sessions ends only by the timer or the second incoming session. The service '
-               'driver executes this composition (sessions, PONGs, idle periods that let the timers run out).',
+               'driver executes this composition (sessions, PONGs, idle periods that let the timers run out). Props/C17Family.lean: a PONG changes the '
+               "record's socket of the family it reports only; a family whose votes the connectivity state does not admit keeps its socket through every "
+               'history of PONGs (with C17Connectivity: a revoked socket stays absent for the six hours of the back-off).',
  'level_note': 'Trusted: Lean kernel, extract.py, harness/driver; enr crate for signature/seq of the record (abstract success flag). The tie model<->code is a '
                'sampled differential check (plus thresholds derived from majority() for n<=400 and an f64 sweep to 10^6), not a proof. The service-side step '
                'is tied to the code by the scripted-service engine.'}
